@@ -51,22 +51,6 @@ func c04Chars(s string) string {
 	return b.String()
 }
 
-// c04ByteLit evaluates `[]byte("…")` to its string.
-func c04ByteLit(e ast.Expr) (string, bool) {
-	call, ok := e.(*ast.CallExpr)
-	if !ok || len(call.Args) != 1 {
-		return "", false
-	}
-	at, ok := call.Fun.(*ast.ArrayType)
-	if !ok || at.Len != nil {
-		return "", false
-	}
-	if id, ok := at.Elt.(*ast.Ident); !ok || id.Name != "byte" {
-		return "", false
-	}
-	return c04StrLit(call.Args[0])
-}
-
 func c04StrLit(e ast.Expr) (string, bool) {
 	switch v := e.(type) {
 	case *ast.BasicLit:
@@ -86,74 +70,6 @@ func c04StrLit(e ast.Expr) (string, bool) {
 		return c04StrLit(v.X)
 	}
 	return "", false
-}
-
-// c04HashNames returns constant name → text for css/hash.go (text taken from _Hash_text by offset/length,
-// exactly as Hash.Bytes does).
-func c04HashNames(r *Repo) (map[string]string, error) {
-	fs, err := r.Files("css")
-	if err != nil {
-		return nil, err
-	}
-	textExpr, err := r.FindVar("css", "_Hash_text")
-	if err != nil {
-		return nil, err
-	}
-	text, ok := c04ByteLit(textExpr)
-	if !ok {
-		return nil, fmt.Errorf("css/hash.go: _Hash_text is not a []byte(string literal)")
-	}
-	out := map[string]string{}
-	for _, f := range fs {
-		if filepath.Base(r.Fset.Position(f.Pos()).Filename) != "hash.go" {
-			continue // only the generated constant block (css.go has pseudo hashes such as zeroAngleFunc)
-		}
-		for _, d := range f.Decls {
-			gd, ok := d.(*ast.GenDecl)
-			if !ok || gd.Tok != token.CONST {
-				continue
-			}
-			for _, s := range gd.Specs {
-				vs := s.(*ast.ValueSpec)
-				id, ok := vs.Type.(*ast.Ident)
-				if !ok || id.Name != "Hash" || len(vs.Names) != 1 || len(vs.Values) != 1 {
-					continue
-				}
-				lit, ok := vs.Values[0].(*ast.BasicLit)
-				if !ok || lit.Kind != token.INT {
-					return nil, fmt.Errorf("css/hash.go: constant %s is not an integer literal", vs.Names[0].Name)
-				}
-				v, err := strconv.ParseUint(lit.Value, 0, 32)
-				if err != nil {
-					return nil, err
-				}
-				start, n := int(v>>8), int(v&0xff)
-				if start+n > len(text) {
-					return nil, fmt.Errorf("css/hash.go: constant %s points outside _Hash_text", vs.Names[0].Name)
-				}
-				out[vs.Names[0].Name] = text[start : start+n]
-			}
-		}
-	}
-	if len(out) < 100 {
-		return nil, fmt.Errorf("css/hash.go: only %d Hash constants found", len(out))
-	}
-	return out, nil
-}
-
-func c04MapLit(r *Repo, name string) (*ast.CompositeLit, error) {
-	e, err := r.FindVar("css", name)
-	if err != nil {
-		return nil, err
-	}
-	cl, ok := e.(*ast.CompositeLit)
-	if !ok {
-		return nil, fmt.Errorf("css/table.go: %s is not a composite literal", name)
-	}
-	if _, ok := cl.Type.(*ast.MapType); !ok {
-		return nil, fmt.Errorf("css/table.go: %s is not a map literal", name)
-	}
-	return cl, nil
 }
 
 type c04Pair struct{ k, v string }
@@ -259,7 +175,11 @@ func c04ColorNames() ([][5]string, error) {
 
 func init() {
 	gen("C04Tables", func(r *Repo) (string, error) {
-		names, err := c04HashNames(r)
+		e, err := r.TEnv()
+		if err != nil {
+			return "", err
+		}
+		h, err := e.HashInfo("css")
 		if err != nil {
 			return "", err
 		}
@@ -267,20 +187,16 @@ func init() {
 		b.WriteString(header("C04Tables", "css/table.go, css/hash.go, golang.org/x/image/colornames/table.go"))
 
 		// ShortenColorHex : map[string][]byte
-		cl, err := c04MapLit(r, "ShortenColorHex")
+		kvs, p, _, err := e.MapVar("css", "ShortenColorHex")
 		if err != nil {
 			return "", err
 		}
 		var hex []c04Pair
-		for _, el := range cl.Elts {
-			kv, ok := el.(*ast.KeyValueExpr)
-			if !ok {
-				return "", fmt.Errorf("ShortenColorHex: unexpected element")
-			}
-			k, ok1 := c04StrLit(kv.Key)
-			v, ok2 := c04ByteLit(kv.Value)
-			if !ok1 || !ok2 {
-				return "", fmt.Errorf("ShortenColorHex: entry is not \"…\": []byte(\"…\")")
+		for _, kv := range kvs {
+			k, err1 := e.Bytes(p, kv.Key)
+			v, err2 := e.Bytes(p, kv.Val)
+			if err1 != nil || err2 != nil {
+				return "", fmt.Errorf("ShortenColorHex: entry is not a statically known string: []byte pair (%v %v)", err1, err2)
 			}
 			hex = append(hex, c04Pair{k, v})
 		}
@@ -289,27 +205,19 @@ func init() {
 		b.WriteString(c04RenderPairs("shortenColorHex", hex))
 
 		// ShortenColorName : map[Hash][]byte
-		cl, err = c04MapLit(r, "ShortenColorName")
+		kvs, p, _, err = e.MapVar("css", "ShortenColorName")
 		if err != nil {
 			return "", err
 		}
 		var nm []c04Pair
-		for _, el := range cl.Elts {
-			kv, ok := el.(*ast.KeyValueExpr)
-			if !ok {
-				return "", fmt.Errorf("ShortenColorName: unexpected element")
+		for _, kv := range kvs {
+			text, err := c17HashKey(e, p, h, kv.Key, "css.ShortenColorName")
+			if err != nil {
+				return "", err
 			}
-			id, ok := kv.Key.(*ast.Ident)
-			if !ok {
-				return "", fmt.Errorf("ShortenColorName: key is not a Hash constant")
-			}
-			text, ok := names[id.Name]
-			if !ok {
-				return "", fmt.Errorf("ShortenColorName: unknown Hash constant %s", id.Name)
-			}
-			v, ok := c04ByteLit(kv.Value)
-			if !ok {
-				return "", fmt.Errorf("ShortenColorName[%s]: value is not []byte(\"…\")", id.Name)
+			v, err := e.Bytes(p, kv.Val)
+			if err != nil {
+				return "", fmt.Errorf("ShortenColorName[%s]: %v", text, err)
 			}
 			nm = append(nm, c04Pair{text, v})
 		}
@@ -318,25 +226,21 @@ func init() {
 		b.WriteString(c04RenderPairs("shortenColorName", nm))
 
 		// optionalZeroDimension : map[string]bool
-		cl, err = c04MapLit(r, "optionalZeroDimension")
+		kvs, p, _, err = e.MapVar("css", "optionalZeroDimension")
 		if err != nil {
 			return "", err
 		}
 		var units []string
-		for _, el := range cl.Elts {
-			kv, ok := el.(*ast.KeyValueExpr)
-			if !ok {
-				return "", fmt.Errorf("optionalZeroDimension: unexpected element")
+		for _, kv := range kvs {
+			k, err := e.Bytes(p, kv.Key)
+			if err != nil {
+				return "", fmt.Errorf("optionalZeroDimension: %v", err)
 			}
-			k, ok := c04StrLit(kv.Key)
-			if !ok {
-				return "", fmt.Errorf("optionalZeroDimension: key is not a string literal")
+			on, err := e.Bool(p, kv.Val)
+			if err != nil {
+				return "", fmt.Errorf("optionalZeroDimension[%s]: %v", k, err)
 			}
-			id, ok := kv.Value.(*ast.Ident)
-			if !ok || (id.Name != "true" && id.Name != "false") {
-				return "", fmt.Errorf("optionalZeroDimension[%s]: value is not a bool literal", k)
-			}
-			if id.Name == "true" {
+			if on {
 				units = append(units, k)
 			}
 		}
@@ -344,16 +248,19 @@ func init() {
 		b.WriteString("/-- keys of `css.optionalZeroDimension` mapped to true -/\n")
 		b.WriteString(c04RenderList("optionalZeroDimension", units))
 
-		// all hash names
+		// all hash names: every text for which ToHash returns non-zero = the non-zero entries of the perfect hash table
 		var all []string
 		seen := map[string]bool{}
-		for _, t := range names {
-			if !seen[t] {
+		for v := range h.table {
+			if t := h.Name(int64(v)); !seen[t] {
 				seen[t] = true
 				all = append(all, t)
 			}
 		}
 		sort.Strings(all)
+		if len(all) < 100 {
+			return "", fmt.Errorf("css/hash.go: only %d names in the hash table", len(all))
+		}
 		b.WriteString("/-- every text for which `css.ToHash` returns a non-zero Hash (constants of css/hash.go) -/\n")
 		b.WriteString(c04RenderList("hashNames", all))
 
